@@ -270,6 +270,15 @@ def gen_partition(r, dy, start, end, n):
     return ts
 
 
+def rate_kind(m):
+    """The RATE_MODELS name of a configured model (None for conversions / collection)."""
+    k = m["m"]
+    if k == "illumination":
+        return {"uniform": "ill_uniform", "rectangular": "ill_rect", "elliptic": "ill_ellip"}.get(m.get("option", "uniform"))
+    return {"load_image": "load_image", "stripe_pattern": "stripe", "load_charge": "load_charge", "dark_current": "dark_current",
+            "dark_current_rule07": "dark_current_rule07", "usaf_illumination": "usaf"}.get(k)
+
+
 def exposure_payload(det, models, start, times, nd, entry=None):
     p = dict(kind="exposure", det=det, models=models, start=H(start), times=[H(t) for t in times], nd=bool(nd))
     if entry == "exposure_mode":     # the deprecated public entry point (own copy of the readout loop)
@@ -1067,13 +1076,13 @@ def run(ctx: Ctx):
     q = ctx.quick
     items = corpus_items()
     ctx.cov["corpus_cases"] = len(items)
-    items += call_items(ctx, r, 2 if q else 20, True)
-    items += call_items(ctx, ctx.rng("calls-nd"), 0 if q else 8, False)
+    items += call_items(ctx, r, 2 if q else 12, True)
+    items += call_items(ctx, ctx.rng("calls-nd"), 0 if q else 6, False)
     singles_and_full = [[k] for k in RATE_MODELS] + [list(RATE_MODELS)]
     subsets = singles_and_full if q else all_subsets()
     r.shuffle(subsets)
-    items += exposure_items(ctx, r, 24 if q else 300, 24 if q else 240, 16 if q else 200, True, subsets)
-    items += exposure_items(ctx, ctx.rng("exp-nd"), 8 if q else 80, 6 if q else 50, 6 if q else 50, False)
+    items += exposure_items(ctx, r, 24 if q else 240, 24 if q else 200, 16 if q else 160, True, subsets)
+    items += exposure_items(ctx, ctx.rng("exp-nd"), 8 if q else 50, 6 if q else 40, 6 if q else 40, False)
     items += refused_items(r)
     recs = evaluate(ctx, items)
     seen = coverage(ctx, recs)
@@ -1082,7 +1091,12 @@ def run(ctx: Ctx):
                        "non-zero start time and a non-zero final pixel value; every direct model call uses >= 3 distinct "
                        "time steps and a pre-filled bucket")
     ctx.cov["disagreements_checked"] = sum(1 for x in recs if x["mismatch"])
-    ctx.cov["exhaustive"] = f"all {2 ** len(RATE_MODELS) - 1} non-empty subsets of the {len(RATE_MODELS)} rate models (thorough tier)" if not q else False
+    subsets_run = {frozenset(rate_kind(m) for m in x["item"]["payloads"][0]["models"] if rate_kind(m))
+                   for x in recs if x["item"]["type"] == "exp" and x["item"].get("dy", True) and not x["item"].get("refused")}
+    subsets_run.discard(frozenset())
+    ctx.cov["rate_model_subsets_run"] = len(subsets_run)
+    ctx.cov["exhaustive"] = (f"{len(subsets_run)} of the {2 ** len(RATE_MODELS) - 1} non-empty subsets of the "
+                             f"{len(RATE_MODELS)} rate models were run as exposures (measured)") if not q else False
     for rec in [x for x in recs if x["item"]["type"] == "pair"][:2] + [x for x in recs if x["item"]["type"] == "inc"][:1]:
         ctx.sample(dict(what=describe(rec), mismatch=rec["mismatch"], violation=rec["violation"]))
     collect(ctx, recs)
